@@ -716,6 +716,13 @@ fn regress(args: &[String]) -> i32 {
         Err(_) => vec![],
     };
     files.sort();
+    // scenarios that are expected to exhaust their CPU budget leave a runaway thread behind:
+    // they go last (the process exits right after the loop)
+    files.sort_by_key(|f| {
+        std::fs::read_to_string(f)
+            .map(|s| s.contains("\"cpu_limit_secs\""))
+            .unwrap_or(false)
+    });
     let mut bad = 0;
     let mut n = 0;
     for f in files {
@@ -738,7 +745,7 @@ fn regress(args: &[String]) -> i32 {
         n += 1;
         let mut sc = rf.scenario.clone();
         sc.property = prop.to_string();
-        let o = run_guarded(&sc, false, Duration::from_secs(180));
+        let o = run_guarded(&sc, false, Duration::from_secs(rf.cpu_limit_secs.unwrap_or(180)));
         let got = match &o {
             None => Some("hang".to_string()),
             Some(o) => o.violation.as_ref().map(|v| v.signature.clone()),
